@@ -115,6 +115,79 @@ theorem c14_callback_failure_irrelevant (R : Int → Bool) (cfg : Cfg α) (f : N
   have key := loop_cb_irrelevant R cfg f
   simp [run, key]
 
+
+/-! ## One token shared by several requests -/
+
+/-- Requests that share one cancellation token (a group cancelled together, a retry after a
+cancelled call) are cancelled request by request: EVERY request of the sequence that ends with
+`CancelledError` wrote exactly one cancelled notification and every other one wrote none; a
+request started at or after the instant the token fired is never sent and ends cancelled at once;
+a request is cancelled only if the token had fired by its completion; none is cancelled when the
+token never fires; each ends by its own deadline and within one poll period of the token firing. -/
+theorem c14_shared_token (R : Int → Bool) (fire : Option Nat) (s0 : Nat)
+    (reqs : List (Cfg α × Nat × List (Nat × In α))) :
+    ∀ x ∈ runSeq R fire s0 reqs,
+      (x.2.writes.count Write.cancelNotif = 1 ↔ x.2.outcome = .cancelled)
+      ∧ x.2.writes.count Write.cancelNotif ≤ 1
+      ∧ (∀ f, fire = some f → f ≤ x.1 → x.2.outcome = .cancelled ∧ Write.request ∉ x.2.writes ∧ x.2.time = 0)
+      ∧ (x.2.outcome = .cancelled → ∃ f, fire = some f ∧ f ≤ x.1 + x.2.time)
+      ∧ (∀ f, fire = some f → ∃ r ∈ reqs, x.1 + x.2.time ≤ max x.1 f + r.1.P) := by
+  induction reqs generalizing s0 with
+  | nil => simp [runSeq]
+  | cons r rest ih =>
+    obtain ⟨cfg, gap, ev⟩ := r
+    intro x hx
+    simp only [runSeq, List.mem_cons] at hx
+    rcases hx with rfl | hx
+    · dsimp only
+      refine ⟨(c14_one_cancel_notification R _ ev).1, (c14_one_cancel_notification R _ ev).2, ?_, ?_, ?_⟩
+      · intro f hf hle
+        subst hf
+        have hp : (withToken cfg (some f) s0).preCancelled = true := by simp [withToken, hle]
+        have h := c14_cancel_before_send_writes_no_request R _ ev hp
+        refine ⟨h.2, h.1, ?_⟩
+        simp [run, hp]
+      · intro hc
+        rcases c14_cancelled_only_if_fired R _ ev hc with hp | ⟨c, h1, h2⟩
+        · cases fire with
+          | none => simp [withToken] at hp
+          | some f =>
+            by_cases hle : f ≤ s0
+            · exact ⟨f, rfl, by omega⟩
+            · simp [withToken, hle] at hp
+        · cases fire with
+          | none => simp [withToken] at h1
+          | some f =>
+            by_cases hle : f ≤ s0
+            · exact ⟨f, rfl, by omega⟩
+            · simp [withToken, hle] at h1
+              exact ⟨f, rfl, by omega⟩
+      · intro f hf
+        subst hf
+        refine ⟨(cfg, gap, ev), List.mem_cons_self, ?_⟩
+        show _ ≤ _ + cfg.P
+        by_cases hle : f ≤ s0
+        · have hp : (withToken cfg (some f) s0).preCancelled = true := by simp [withToken, hle]
+          have : (run R (withToken cfg (some f) s0) ev).time = 0 := by simp [run, hp]
+          omega
+        · have hc : (withToken cfg (some f) s0).cancelAt = some (f - s0) := by simp [withToken, hle]
+          have := c14_cancel_latency R _ ev _ hc
+          have hP : (withToken cfg (some f) s0).P = cfg.P := by simp [withToken, hle]
+          omega
+    · obtain ⟨h1, h2, h3, h4, h5⟩ := ih _ x hx
+      refine ⟨h1, h2, h3, h4, ?_⟩
+      intro f hf
+      obtain ⟨r, hr, hle⟩ := h5 f hf
+      exact ⟨r, List.mem_cons_of_mem _ hr, hle⟩
+
+/-- the starts are what sequential execution gives: each request starts when the previous one has
+ended, plus the idle time in between -/
+theorem c14_shared_token_starts (R : Int → Bool) (fire : Option Nat) (s0 : Nat)
+    (cfg : Cfg α) (gap : Nat) (ev : List (Nat × In α)) (rest : List (Cfg α × Nat × List (Nat × In α))) :
+    runSeq R fire s0 ((cfg, gap, ev) :: rest)
+      = (s0, run R (withToken cfg fire s0) ev)
+        :: runSeq R fire (s0 + (run R (withToken cfg fire s0) ev).time + gap) rest := rfl
+
 /-! Non-vacuity -/
 def exCfg : Cfg Nat :=
   { reqId := .str "r1", D := 4096, P := Verif.Gen.Timing.pollMs, hP := by decide, preCancelled := false,
@@ -128,5 +201,14 @@ def exObs : Obs Nat := run (fun _ => true) exCfg
 example : exObs.outcome = .cancelled ∧ exObs.time = 1100 ∧ exObs.callbacks = [(1, none, none)]
     ∧ exObs.writes = [.request, .cancelNotif] := by
   simp [exObs, exCfg, run, loop, cancelVisible, arrivesInTime, classify, Verif.Gen.Timing.pollMs]
+
+/-- three requests on one token firing at tick 700: the first is cancelled while waiting (one
+notification), the second and third are never sent (one notification each) -/
+example : (runSeq (fun _ => true) (some 700) 0
+      [({ exCfg with cancelAt := none }, 5, []), ({ exCfg with cancelAt := none }, 0, []),
+       ({ exCfg with cancelAt := none }, 0, [])]).map
+        (fun x => (x.1, x.2.time, x.2.writes))
+    = [(0, 1000, [.request, .cancelNotif]), (1005, 0, [.cancelNotif]), (1005, 0, [.cancelNotif])] := by
+  simp [runSeq, withToken, exCfg, run, loop, cancelVisible, Verif.Gen.Timing.pollMs]
 
 end Verif.Props.C14
